@@ -28,11 +28,15 @@ pub use self::raw::{Deserializable, Deserialize, Deserializers, RawConfig};
 /// configuration.
 pub fn init_config(config: runtime::Config) -> Result<crate::Handle, SetLoggerError> {
     let logger = crate::Logger::new(config);
-    log::set_max_level(logger.max_log_level());
+    let max_level = logger.max_log_level();
     let handle = Handle {
         shared: logger.0.clone(),
     };
-    log::set_boxed_logger(Box::new(logger)).map(|()| handle)
+    // only touch the global max level once this logger really is the installed one
+    log::set_boxed_logger(Box::new(logger)).map(|()| {
+        log::set_max_level(max_level);
+        handle
+    })
 }
 
 /// Initializes the global logger as a log4rs logger with the provided config and error handler.
@@ -44,11 +48,14 @@ pub fn init_config_with_err_handler(
     err_handler: Box<dyn Send + Sync + Fn(&anyhow::Error)>,
 ) -> Result<crate::Handle, SetLoggerError> {
     let logger = crate::Logger::new_with_err_handler(config, err_handler);
-    log::set_max_level(logger.max_log_level());
+    let max_level = logger.max_log_level();
     let handle = Handle {
         shared: logger.0.clone(),
     };
-    log::set_boxed_logger(Box::new(logger)).map(|()| handle)
+    log::set_boxed_logger(Box::new(logger)).map(|()| {
+        log::set_max_level(max_level);
+        handle
+    })
 }
 
 /// Create a log4rs logger using the provided raw config.
@@ -74,8 +81,9 @@ pub fn create_raw_config(config: RawConfig) -> Result<crate::Logger, InitError> 
 #[cfg(feature = "config_parsing")]
 pub fn init_raw_config(config: RawConfig) -> Result<(), InitError> {
     let logger = create_raw_config(config)?;
-    log::set_max_level(logger.max_log_level());
+    let max_level = logger.max_log_level();
     log::set_boxed_logger(Box::new(logger))?;
+    log::set_max_level(max_level);
     Ok(())
 }
 
